@@ -363,8 +363,9 @@ func Scratch() string {
 			panic(err)
 		}
 		// every file the cases hand to the code under test lives below a directory whose name means something
-		// in URLs ('#', '?', a valid percent escape, a space, a bare '%'): local paths are paths, not URLs
-		sd := filepath.Join(d, "s #1%41?x=y 100%")
+		// in URLs ('#', '?', a valid percent escape, a space): local paths are paths, not URLs.  (No invalid escape: it would make every
+		// unescaping attempt fail and so hide code that unescapes when it can.)
+		sd := filepath.Join(d, "s #1%41?x=y")
 		if err := os.MkdirAll(sd, 0o755); err != nil {
 			panic(err)
 		}
